@@ -5,10 +5,25 @@ import (
 	"go.pennock.tech/tabular/csv"
 	"go.pennock.tech/tabular/json"
 	"go.pennock.tech/tabular/markdown"
+	"go.pennock.tech/tabular/properties"
+	"go.pennock.tech/tabular/properties/align"
 	"go.pennock.tech/tabular/texttable"
+	"go.pennock.tech/tabular/texttable/decoration"
 )
 
 type vfUserKey struct{ n int }
+
+// an application-made decoration and one derived from it by copying and changing the corners come
+// first (they share whatever a struct copy shares), then registered ones
+var vfC14Decos = []string{"<custom>", "<derived>", "utf8-heavy", "none", "utf8-light", "utf8-light-curved", "ascii-simple", "utf8-double"}
+
+var vfCustomBase = decoration.ASCIIBoxSimple()
+
+func vfCustomDerived() decoration.Decoration {
+	d := vfCustomBase
+	d.TopLeft, d.TopRight, d.BottomLeft, d.BottomRight = "/", "\\", "\\", "/"
+	return d
+}
 
 type vfSnap struct {
 	nrows, ncols int
@@ -37,6 +52,9 @@ func vfSnapshot(t tabular.Table, key *vfUserKey) vfSnap {
 	s.props = append(s.props, t.GetProperty(key))
 	for i := 0; i <= t.NColumns(); i++ {
 		s.props = append(s.props, t.Column(i).GetProperty(key))
+		// the well-known keys renderers consult are user-visible state too
+		s.props = append(s.props, t.Column(i).GetProperty(align.PropertyType))
+		s.props = append(s.props, t.Column(i).GetProperty(properties.Skipable))
 	}
 	return s
 }
@@ -84,7 +102,14 @@ func (r *vfRenderers) render(f int) (string, error) {
 			return Wrap(r.t, "html")
 		}
 		tt := texttable.Wrap(r.t)
-		tt.SetDecorationNamed(vfDecoNames[f-4])
+		switch f - 4 {
+		case 0:
+			tt.SetDecoration(vfCustomBase)
+		case 1:
+			tt.SetDecoration(vfCustomDerived())
+		default:
+			tt.SetDecorationNamed(vfC14Decos[f-4])
+		}
 		return tt
 	}
 	if f%2 == 0 {
@@ -118,10 +143,11 @@ func VerifC14_repeat() {
 	t.AllRows()[0].SetProperty(key, 4)
 	c, _ := t.CellAt(tabular.CellLocation{Row: 1, Column: 1})
 	c.SetProperty(key, 5)
+	t.Column(0).SetProperty(align.PropertyType, align.Right)
 	before := vfSnapshot(t, key)
 	nf := 4 + 2 // csv, json, markdown, html, two decorations (quick)
 	if vfTier() == 1 {
-		nf = 4 + len(vfDecoNames)
+		nf = 4 + len(vfC14Decos)
 	}
 	first := make([]string, nf)
 	firstErr := make([]bool, nf)
@@ -131,6 +157,9 @@ func VerifC14_repeat() {
 	other.AddHeaders("other")
 	other.AddRowItems("zzz")
 	other.AddRowItems("yyy")
+	// its JSON rendering fails after output has begun
+	other.AddRowItems(vfUnencodable{s: "bad"})
+
 	rs, ro := &vfRenderers{t: t}, &vfRenderers{t: other}
 	late := &vfUserKey{2}
 	n := 1 + vfChoice("n", maxLen)
